@@ -17,6 +17,7 @@ func (P *Program) staticChecks(prop string) []*Obligation {
 	out = append(out, P.funcTypeFrames(prop)...)
 	out = append(out, P.chanClosureFrames(prop)...)
 	out = append(out, P.publishedChecks(prop)...)
+	out = append(out, P.spawnCaptureChecks(prop)...)
 	return out
 }
 
@@ -397,4 +398,108 @@ func (P *Program) funcTypeTargets(name string) map[*ssa.Function]bool {
 		}
 	}
 	return out
+}
+
+
+// spawnCaptureChecks: a variable that a spawned closure captures by reference must not be
+// written by the spawner after the go statement - the goroutine could see the later value (and
+// the accesses race). The classic instance is a range variable shared by all iterations
+// (language versions before 1.22) captured without the `d := d` copy. Checked for every
+// function of the module in C02 and C10 runs, and for the functions whose contract lists the
+// property otherwise.
+func (P *Program) spawnCaptureChecks(prop string) []*Obligation {
+	var out []*Obligation
+	var fns []*ssa.Function
+	for _, fn := range P.ModFuncs {
+		fns = append(fns, fn)
+	}
+	sort.Slice(fns, func(i, j int) bool { return fns[i].String() < fns[j].String() })
+	for _, fn := range fns {
+		if prop != "C02" && prop != "C10" {
+			ct := P.Contracts[fn]
+			if ct == nil || !hasProp(ct.Props, prop) {
+				continue
+			}
+		}
+		for _, b := range fn.Blocks {
+			for gi, in := range b.Instrs {
+				g, ok := in.(*ssa.Go)
+				if !ok {
+					continue
+				}
+				mc, ok := g.Call.Value.(*ssa.MakeClosure)
+				if !ok {
+					continue
+				}
+				okAll, why := true, ""
+				for k, bnd := range mc.Bindings {
+					al, isAlloc := bnd.(*ssa.Alloc)
+					if !isAlloc || al.Referrers() == nil {
+						continue
+					}
+					for _, ref := range *al.Referrers() {
+						st, isStore := ref.(*ssa.Store)
+						if !isStore || st.Addr != ssa.Value(al) {
+							continue
+						}
+						if storeAfter(b, gi, st, al) {
+							okAll = false
+							why += fmt.Sprintf("%s (captured as %s by %s) is assigned at %s after the go statement; ", al.Comment, mc.Fn.(*ssa.Function).FreeVars[k].Name(), mc.Fn.Name(), P.pos(st.Pos()))
+						}
+					}
+				}
+				out = append(out, staticOb(fmt.Sprintf("static/spawn-capture:%s#%d", relName(fn), len(out)+1), P.pos(g.Pos()),
+					"no variable captured by the goroutine started here is assigned by the spawner afterwards", okAll, why))
+			}
+		}
+	}
+	// stable names: number per function
+	perFn := map[string]int{}
+	for _, ob := range out {
+		base := ob.Name[:strings.LastIndex(ob.Name, "#")]
+		perFn[base]++
+		ob.Name = fmt.Sprintf("%s#%d", base, perFn[base])
+	}
+	return out
+}
+
+// storeAfter: can the store execute after instruction gi of block gb without the variable's
+// Alloc instruction executing in between (a new Alloc execution makes a new variable)?
+func storeAfter(gb *ssa.BasicBlock, gi int, st *ssa.Store, al *ssa.Alloc) bool {
+	// same block, later instruction
+	allocBlock := al.Block()
+	for i := gi + 1; i < len(gb.Instrs); i++ {
+		if gb.Instrs[i] == ssa.Instruction(al) {
+			return false
+		}
+		if gb.Instrs[i] == ssa.Instruction(st) {
+			return true
+		}
+	}
+	seen := map[*ssa.BasicBlock]bool{}
+	var stack []*ssa.BasicBlock
+	stack = append(stack, gb.Succs...)
+	for len(stack) > 0 {
+		b := stack[len(stack)-1]
+		stack = stack[:len(stack)-1]
+		if seen[b] {
+			continue
+		}
+		seen[b] = true
+		blocked := false
+		for _, in := range b.Instrs {
+			if in == ssa.Instruction(al) {
+				blocked = true
+				break
+			}
+			if in == ssa.Instruction(st) {
+				return true
+			}
+		}
+		_ = allocBlock
+		if !blocked {
+			stack = append(stack, b.Succs...)
+		}
+	}
+	return false
 }
